@@ -82,17 +82,19 @@ type uStat struct {
 	Del  int    `json:"del"`
 }
 type uRec struct {
-	ID       int     `json:"id"`
-	Case     *uCase  `json:"c"`
-	Err      string  `json:"err"`  // "" | encode / parse error of go-git's patch
-	FPs      []uFP   `json:"fps"`  // go-git's patch
-	Stats    []uStat `json:"stats"`
-	HasGit   bool    `json:"hasgit"`
-	GitApply string  `json:"gitapply"` // "ok" | "rejected" | "wrong-tree" | ""
-	GitErr   string  `json:"giterr"`
-	GErr     string  `json:"gerr"` // parse error of git's own patch
-	GFPs     []uFP   `json:"gfps"` // git's own patch for the same pair
-	GStats   []uStat `json:"gstats"`
+	ID       int              `json:"id"`
+	Case     *uCase           `json:"c"`
+	Err      string           `json:"err"` // "" | encode / parse error of go-git's patch
+	FPs      []uFP            `json:"fps"` // go-git's patch
+	Stats    []uStat          `json:"stats"`
+	Solo     map[string][]uFP `json:"solo"` // go-git's patch for the same case restricted to one path
+	SoloErr  string           `json:"soloerr"`
+	HasGit   bool             `json:"hasgit"`
+	GitApply string           `json:"gitapply"` // "ok" | "rejected" | "wrong-tree" | ""
+	GitErr   string           `json:"giterr"`
+	GErr     string           `json:"gerr"` // parse error of git's own patch
+	GFPs     []uFP            `json:"gfps"` // git's own patch for the same pair
+	GStats   []uStat          `json:"gstats"`
 }
 
 func uRender(f uFile) []byte {
@@ -365,6 +367,10 @@ func uApplyArgs(ctx int, pf string) []string {
 	return []string{"apply", pf}
 }
 
+func fileEq(a, b uFile) bool {
+	return a.P == b.P && a.Nl == b.Nl && a.Mode == b.Mode && a.Bin == b.Bin && strings.Join(a.Lines, "\n") == strings.Join(b.Lines, "\n")
+}
+
 func c45(args []string) error {
 	if len(args) < 2 {
 		return fmt.Errorf("usage: c45 cases.ndjson out.ndjson")
@@ -402,19 +408,28 @@ func c45(args []string) error {
 	gitOK := gitcli.Available()
 	budget := 450
 	if rep.Thorough() {
-		budget = 5000
+		budget = 2000
 	}
 	// the git leg always covers the tree-shaped families and a seeded sample of the rest
 	var pick = map[int]bool{}
 	if gitOK {
-		var rest []int
+		var rest, tree []int
 		for i, c := range cases {
-			if c.Fam == "T" || c.Fam == "R" {
-				if len(pick) < budget*2/3 {
+			switch c.Fam {
+			case "M": // multi-file patches: a seeded half (all of them in thorough)
+				if rep.Thorough() || rnd.Intn(2) == 0 {
 					pick[i] = true
 				}
-			} else {
+			case "T", "R":
+				tree = append(tree, i)
+			default:
 				rest = append(rest, i)
+			}
+		}
+		rnd.Shuffle(len(tree), func(i, j int) { tree[i], tree[j] = tree[j], tree[i] })
+		for _, i := range tree {
+			if len(pick) < budget*2/3 {
+				pick[i] = true
 			}
 		}
 		rnd.Shuffle(len(rest), func(i, j int) { rest[i], rest[j] = rest[j], rest[i] })
@@ -477,6 +492,37 @@ func c45(args []string) error {
 					rec.Stats = append(rec.Stats, uStat{s.Name, s.Addition, s.Deletion})
 				}
 			}
+		}
+		// the same case one path at a time (memory storage; no git involved)
+		rec.Solo = map[string][]uFP{"f1": {}, "f2": {}}
+		for _, pth := range []string{"f1", "f2"} {
+			if fileEq(c.Old[pth], c.New[pth]) {
+				continue
+			}
+			so, err := uStoreTree(mem, map[string]uFile{pth: c.Old[pth]})
+			if err != nil {
+				return err
+			}
+			sn, err := uStoreTree(mem, map[string]uFile{pth: c.New[pth]})
+			if err != nil {
+				return err
+			}
+			sp, err := so.Patch(sn)
+			if err != nil {
+				rec.SoloErr = "Tree.Patch: " + err.Error()
+				continue
+			}
+			var sb bytes.Buffer
+			if err := fdiff.NewUnifiedEncoder(&sb, c.Ctx).Encode(sp); err != nil {
+				rec.SoloErr = "UnifiedEncoder.Encode: " + err.Error()
+				continue
+			}
+			sf, perr := uParse(sb.String())
+			if perr != "" {
+				rec.SoloErr = "parse: " + perr
+				continue
+			}
+			rec.Solo[pth] = sf
 		}
 		if pick[i] && rec.Err == "" {
 			nGit++
